@@ -29,20 +29,24 @@ warnings.filterwarnings("ignore", category=DeprecationWarning)
 warnings.filterwarnings("ignore", category=UserWarning)
 
 ID = "C02"
-LEAN_TARGETS = ["RV.C02.Props", "RV.C02.Audit"]
+LEAN_TARGETS = ["RV.C02.Props", "RV.C02.PropsConc", "RV.C02.Audit"]
+LEAN_EXTRA_DIRS = ("C01",)    # the driver and the composition theorems import C01's Memory model
 AUDIT = "RV/C02/Audit.lean"
 DRIVER = "drv_c02"
-CASES = {"quick": 3000, "thorough": 60000, "search": 20000}
+CASES = {"quick": 3000, "thorough": 50000, "search": 20000}
 RULE = ("random scripts (3-12 mutating calls quick / 3-16 thorough, each followed by an observation block and 2-5 probes) over one Memory "
         "store seen through a Dataset (default_union on/off), a ConjunctiveGraph and independent Graph(store, name) "
         "views, default_union switched at run time, reads including triples_choices (each list position) and property-path quad patterns (p/q, p|q, ^p, p*); graph names: IRI, blank node with the same label, IRI, blank node, one never created, one created but "
         "empty, the two default graphs; non-trivial = at some point two graphs held a common triple or a restricted "
         "query hit an empty/unknown graph while another graph matched, and at least one removal happened; "
         "distinct = distinct scripts")
-ASSUMPTIONS = ["Memory behaves as a set of (triple, graph) pairs plus a set of registered graphs "
-               "(its index / context-compression internals are C01's subject); tied here by correspondence only",
-               "graph(None) (fresh skolem-named graph), parse, serialisation and pickling are outside the model"]
-TRUSTED = ["harness/c02.py generators, interpreter and canonicalisation", "lean/RV/C02/Drive.lean line protocol"]
+ASSUMPTIONS = ["the Memory model the layer is composed with is C01's (lean/RV/C01/Model.lean, imported, proved there to "
+               "represent a set of (triple, graph) pairs plus a set of registered graphs; composed here by conc_refines_abstract)",
+               "graph(None): the name BNode().skolemize() returns is fresh (uuid-based); the harness checks it on every call",
+               "parse, serialisation and pickling are outside the model"]
+TRUSTED = ["harness/c02.py generators, interpreter and canonicalisation", "lean/RV/C02/Drive.lean line protocol",
+           "lean/RV/C01/Model.lean as a model of memory.py (C01's own correspondence check; here every line of every script "
+           "is answered by the Dataset layer composed with that model and compared with rdflib)"]
 
 SUBJ = {1: URIRef("http://e/s1"), 2: BNode("s2"), 3: URIRef("http://e/s3")}
 PRED = {10: URIRef("http://e/p"), 11: URIRef("http://e/q")}
@@ -56,6 +60,18 @@ OBJ_REV = {v: k for k, v in OBJ.items()}
 D_DEF, C_DEF, UNKNOWN, EMPTY = 99, 98, 94, 95
 NAMED = [90, 91, 92, 93]
 ALLKEYS = NAMED + [UNKNOWN, EMPTY, C_DEF, D_DEF]
+FRESH0 = 200      # key of the n-th graph created by ds.graph() / graph(None) is FRESH0 + n
+
+
+class _Names(dict):
+    """key -> graph identifier; a fresh key that was never created (its `graphnew` line was shrunk away)
+    names a graph nobody ever heard of"""
+
+    def __missing__(self, k):
+        if k >= FRESH0:
+            self[k] = URIRef("urn:never-created-%d" % k)
+            return self[k]
+        raise KeyError(k)
 
 
 def _names(cgid):
@@ -197,8 +213,10 @@ NODE = {**SUBJ, **OBJ}
 
 class _Impl:
     def __init__(self, case, du_d, du_c):
-        self.names = _names(case.get("cgid", "iri"))
-        self.rev = {v: k for k, v in self.names.items()}
+        self.names = _Names(_names(case.get("cgid", "iri")))
+        self.keys = list(ALLKEYS) + sorted({int(x) for l in case["lines"] for x in re.findall(r"\b[ivf]?(2\d\d)\b", l)
+                                            if l.split()[0] != "graphnew"} |
+                                           {FRESH0 + int(l.split()[2]) for l in case["lines"] if l.startswith("graphnew ")})
         self.store = Memory()
         self.d = Dataset(store=self.store, default_union=du_d)
         self.c = ConjunctiveGraph(store=self.store, identifier=self.names[C_DEF])
@@ -208,11 +226,17 @@ class _Impl:
         self.pool = {k: [Graph(store=self.store, identifier=self.names[k])] for k in ALLKEYS}
         self.rot = 0
 
+    @property
+    def rev(self):
+        return {v: k for k, v in self.names.items()}
+
     def top(self, w):
         return self.d if w == "d" else self.c
 
     def view(self, k):
-        vs = self.pool[k]
+        vs = self.pool.setdefault(k, [])
+        if not vs:
+            vs.append(Graph(store=self.store, identifier=self.names[k]))
         self.rot += 1
         return vs[self.rot % len(vs)]
 
@@ -238,7 +262,7 @@ class _Impl:
         if g[0] == "v":
             if self.rot % 3 == 0:
                 v = self.top(top).get_context(self.names[g[1]])  # a view obtained just now
-                self.pool[g[1]].append(v)
+                self.pool.setdefault(g[1], []).append(v)
                 self.rot += 1
                 return v
             return self.view(g[1])
@@ -255,7 +279,7 @@ class _Impl:
         return self.rev[c]
 
     def snapshot(self):
-        return {k: {self.ids(t) for t in Graph(store=self.store, identifier=self.names[k])} for k in ALLKEYS}
+        return {k: {self.ids(t) for t in Graph(store=self.store, identifier=self.names[k])} for k in self.keys}
 
 
 def _tq_obj(im, pat, g, top):
@@ -296,14 +320,14 @@ def run_impl(case):
         w = lines[k].split()
         op = w[0]
         bump("op_" + op)
-        mutating = op in ("add", "addn", "remove", "graph", "rmgraph", "rmctx", "vadd", "vremove", "setdu")
+        mutating = op in ("add", "addn", "iadd", "remove", "graph", "graphnew", "rmgraph", "rmctx", "vadd", "vremove", "setdu")
         before = im.snapshot() if mutating else None
         touched = None     # set of graph keys the op may change (None = all)
         reg_before = {im.gid(g) for g in im.store.contexts()}
         # graphs whose registry entry the line may change: graphs carried in by a foreign Graph object, plus per op
         reg_touched = {int(x) for x in re.findall(r"f(\d+):", lines[k])}
         add_target = None
-        if True:
+        try:
             if op == "add":
                 top, t, g = w[1], tuple(map(int, w[2:5])), _garg(w[5])
                 arg = im.triple(t) if g[0] == "-" else im.triple(t) + (im.gobj(g, top),)
@@ -316,7 +340,7 @@ def run_impl(case):
                 touched = {tk} | affected(g)
                 bump("add_" + g[0])
                 out = "ok"
-            elif op == "addn":
+            elif op in ("addn", "iadd"):
                 top = w[1]
                 qs = []
                 touched = set()
@@ -337,8 +361,8 @@ def run_impl(case):
                     touched.add(_gkey(g))
                     reg_touched.add(_gkey(g))
                 try:
-                    if k % 2 == 0 and top == "d":
-                        im.d += qs
+                    if op == "iadd" or (k % 2 == 0 and top == "d"):
+                        im.d += qs if k % 3 else iter(qs)     # Dataset.__iadd__ (a list or any iterable of quads)
                     else:
                         im.top(top).addN(qs)
                     out = "ok"
@@ -358,15 +382,38 @@ def run_impl(case):
             elif op == "graph":
                 top, g = w[1], _garg(w[2])
                 v = (im.d.graph if k % 2 else im.d.add_graph)(im.gobj(g, top))
-                im.pool[g[1]].append(v)
+                im.pool.setdefault(g[1], []).append(v)
                 foreign_effect(g)
                 orc.create(g[1])
                 touched = affected(g)
                 reg_touched.add(g[1])
                 out = "ok"
+            elif op == "graphnew":
+                # ds.graph() / ds.graph(None): a graph under a fresh (skolemised blank node) name
+                gk = FRESH0 + int(w[2])
+                known_before = set(im.names.values()) | {g.identifier for g in im.store.contexts()}
+                v = im.d.graph() if k % 2 else im.d.add_graph(None)
+                out = "ok"
+                if v.identifier in known_before:
+                    bad("fresh", k, f"graph() returned the name {v.identifier!r}, which was already in use")
+                    out = "not-fresh"
+                if not isinstance(v.identifier, URIRef) or v.store is not im.store:
+                    bad("fresh", k, f"graph() returned {v!r}: not a skolem IRI named graph on this store")
+                im.names[gk] = v.identifier
+                im.pool.setdefault(gk, []).append(v)
+                if gk not in im.keys:
+                    im.keys.append(gk)
+                if len(v) != 0:
+                    bad("fresh", k, f"the fresh graph holds {len(v)} triples")
+                orc.create(gk)
+                touched = set()
+                reg_touched.add(gk)
+                bump("graphnew")
             elif op == "rmgraph":
                 gk = int(w[2])
-                im.d.remove_graph(im.names[gk] if k % 2 else im.view(gk))
+                # by identifier, by a same-store view, or by a Graph object of ANOTHER store bearing the name (no merge here:
+                # remove_graph does not go through _graph; the store identifies a graph by its identifier)
+                im.d.remove_graph(im.names[gk] if k % 2 else (Graph(identifier=im.names[gk]) if k % 4 == 0 else im.view(gk)))
                 orc.remove_graph(gk)
                 touched = {gk}
                 reg_touched.add(gk)
@@ -374,7 +421,7 @@ def run_impl(case):
                 out = "ok"
             elif op == "rmctx":
                 gk = int(w[2])
-                im.top(w[1]).remove_context(im.view(gk))
+                im.top(w[1]).remove_context(Graph(identifier=im.names[gk]) if k % 4 == 3 else im.view(gk))
                 orc.remove((None, None, None), gk)
                 touched = {gk}
                 flags["removal"] = True
@@ -491,7 +538,7 @@ def run_impl(case):
                 res = sorted(im.gid(g) for g in gs)
                 for g in gs:
                     if g.store is im.store:
-                        im.pool[im.gid(g)].append(g)   # a view obtained now, read later
+                        im.pool.setdefault(im.gid(g), []).append(g)   # a view obtained now, read later
                 if len(res) != len(set(res)):
                     bad("dup", k, "a graph is listed twice")
                 if top == "d":
@@ -550,7 +597,7 @@ def run_impl(case):
                 if len(res) != len(set(res)):
                     bad("dup", k, "a triple is yielded twice")
                 if pat == (None, None, None):
-                    for v in im.pool[gk]:
+                    for v in im.pool.get(gk, []):
                         if {im.ids(t) for t in v} != set(res):
                             bad("view", k, f"two views of graph {gk} obtained at different times disagree")
                             break
@@ -681,9 +728,21 @@ def run_impl(case):
                         f"the graph's own relation has {len(want)} {sorted(map(str, want))[:3]}")
                 bump("path_nonempty" if want else "path_empty")
             elif op == "sctx":
-                out = " ".join(map(str, sorted(im.gid(g) for g in im.store.contexts())))
+                got = [im.gid(g) for g in im.store.contexts()]
+                if len(got) != len(set(got)):
+                    bad("dup", k, "store.contexts() lists a graph twice")
+                # store.contexts() = the created-and-not-removed graphs, up to the lazily re-created default graph
+                if set(got) - {D_DEF} != orc.K - {D_DEF}:
+                    bad("graphs", k, f"store.contexts() = {sorted(got)}, created and not removed = {sorted(orc.K)}")
+                out = " ".join(map(str, sorted(got)))
+            elif op == "cerr":
+                out = "ok"        # reaching this line means no call of the script raised
             else:
                 out = "bad-op"
+        except Exception as e:      # no call of a script may raise (the concrete store model's `err` flag stays false)
+            bad("raise", k, f"{type(e).__name__}: {str(e)[:120]}")
+            obs.append("raised " + type(e).__name__)
+            break
         obs.append(out)
         # registry isolation, on the implementation's own store.contexts(): only the graphs the line addresses
         # may appear / disappear (the default graph of the Dataset is re-created lazily: exempt)
@@ -697,11 +756,11 @@ def run_impl(case):
             after = im.snapshot()
             if op == "remove" and touched is None:
                 pat = tuple(map(_p, w[2:5]))
-                for gk in ALLKEYS:
+                for gk in before:
                     if after[gk] != {t for t in before[gk] if not _match(pat, t)}:
                         bad("removeall", k, f"graph {gk} was {sorted(before[gk])}, now {sorted(after[gk])}")
             else:
-                for gk in ALLKEYS:
+                for gk in before:
                     if gk not in touched and after[gk] != before[gk]:
                         bad("isolation", k, f"graph {gk} changed from {sorted(before[gk])} to {sorted(after[gk])} "
                                             f"although the operation names graph(s) {sorted(touched)}")
@@ -770,15 +829,18 @@ def gen_case(rng, tier, i):
         u = sorted(spec.union())
         return rng.choice(u) if u and rng.random() < (0.6 if chainy else 0.75) else _rtriple(rng, chainy)
 
+    fresh = []           # keys of the graphs created by ds.graph() so far
+
     def gkey():
-        return rng.choice(NAMED + NAMED + [D_DEF, C_DEF])
+        return rng.choice(NAMED + NAMED + [D_DEF, C_DEF] + fresh + fresh)
 
     def block():
         out = ["sctx"]
         for t in tops:
             out += ["iter d" if t == "d" and rng.random() < 0.3 else f"quads {t} nil", f"graphs {t}", f"len {t}"]
-        for k in ALLKEYS:
+        for k in ALLKEYS + fresh:
             out.append(f"vtriples {k} * * *")
+        out.append("cerr")
         return out
 
     def probes():
@@ -787,11 +849,11 @@ def gen_case(rng, tier, i):
             top = rng.choice(tops)
             t = known_triple()
             pat = _rpat(rng, t)
-            holders = [kk for kk in ALLKEYS if t in spec.g(kk)]
+            holders = [kk for kk in ALLKEYS + fresh if t in spec.g(kk)]
             if holders and rng.random() < 0.5:
                 k = rng.choice(holders)
             else:
-                k = rng.choice(NAMED + [UNKNOWN, EMPTY, UNKNOWN, EMPTY, D_DEF, C_DEF])
+                k = rng.choice(NAMED + [UNKNOWN, EMPTY, UNKNOWN, EMPTY, D_DEF, C_DEF] + fresh)
             r = rng.random()
             ps = " ".join(_w(x) for x in pat)
             if rng.random() < 0.2:      # triples_choices
@@ -843,8 +905,10 @@ def gen_case(rng, tier, i):
                 out.append(f"quads {top} {ps} {garg(k) if rng.random() < 0.8 else rng.choice(['-', 'N'])}")
             elif r < 0.92:
                 out.append(f"graphsof {top} {' '.join(map(str, t))}")
-            elif r < 0.96:
+            elif r < 0.95:
                 out.append(f"vcontains {k} {ps}")
+            elif r < 0.98:
+                out.append(f"vtriples {k} {ps}")      # a view read with a bound pattern: the store's index dispatch
             else:
                 out.append(f"vlen {k}")
         return out
@@ -884,7 +948,7 @@ def gen_case(rng, tier, i):
                 if g == "N":
                     break
                 spec.add(t, k)
-            lines.append(f"addn {top} " + " ".join(items))
+            lines.append((f"iadd d " if "d" in tops and rng.random() < 0.35 else f"addn {top} ") + " ".join(items))
         elif r < 0.74:
             t = known_triple()
             pat = _rpat(rng, t)
@@ -894,7 +958,7 @@ def gen_case(rng, tier, i):
                 lines.append(f"remove {top} {ps} {rng.choice(['-', 'N'])}")
                 spec.remove(pat, None)
             elif r2 < 0.75:
-                holders = [k for k in ALLKEYS if t in spec.g(k)]
+                holders = [k for k in ALLKEYS + fresh if t in spec.g(k)]
                 k = rng.choice(holders) if holders and rng.random() < 0.7 else rng.choice(NAMED + [D_DEF, C_DEF, UNKNOWN, EMPTY])
                 lines.append(f"remove {top} {ps} {garg(k)}")
                 spec.remove(pat, k)
@@ -903,15 +967,29 @@ def gen_case(rng, tier, i):
                 lines.append(f"vremove {k} {ps}")
                 spec.remove(pat, k)
         elif r < 0.78 and "d" in tops:
-            k = rng.choice(NAMED + [D_DEF])
-            lines.append(f"graph d {garg(k)}")
-            spec.create(k)
+            if rng.random() < 0.45 and len(fresh) < 3:
+                lines.append(f"graphnew d {len(fresh)}")      # ds.graph(): a fresh skolem-named graph
+                fresh.append(FRESH0 + len(fresh))
+                spec.create(fresh[-1])
+            else:
+                k = rng.choice(NAMED + [D_DEF] + fresh)
+                lines.append(f"graph d {garg(k)}")
+                spec.create(k)
         elif r < 0.83:
             lines.append(f"setdu {top} {rng.randint(0, 1)}")     # default_union switched at run time
         elif r < 0.93 and "d" in tops:
-            k = rng.choice(NAMED + NAMED + [D_DEF, C_DEF, UNKNOWN])
+            k = rng.choice(NAMED + NAMED + [D_DEF, C_DEF, UNKNOWN] + fresh)
             lines.append(f"rmgraph d {k}")
             spec.remove_graph(k)
+            if rng.random() < 0.35:      # remove_graph, then the same name again: nothing of the old content may return
+                lines += block()
+                if rng.random() < 0.5:
+                    t = known_triple()
+                    lines.append(f"add d {' '.join(map(str, t))} {garg(k)}")
+                    spec.add(t, k)
+                else:
+                    lines.append(f"graph d {garg(k)}")
+                    spec.create(k)
         else:
             k = gkey()
             lines.append(f"rmctx {top} {k}")
@@ -922,7 +1000,7 @@ def gen_case(rng, tier, i):
 
 
 READS = ("sctx", "quads", "graphs", "len", "vtriples", "triples", "contains", "graphsof", "vcontains", "vlen",
-         "choices", "vchoices", "path", "pathin", "vpath", "iter")
+         "choices", "vchoices", "path", "pathin", "vpath", "iter", "cerr")
 
 
 def shrink(case):
